@@ -80,6 +80,9 @@ func (mp MultiPolygon) Centroid() Point {
 		b := p.ringBounds()
 		for i, r := range p {
 			a := area(r, i, p, b)
+			// The sums below carry the sign of the ring's winding
+			// direction, so they are normalized by the signed area.
+			sa := signedarea(r)
 			cx, cy := 0., 0.
 			for i := 0; i < len(r)-1; i++ {
 				cx += (r[i].X + r[i+1].X) *
@@ -87,8 +90,8 @@ func (mp MultiPolygon) Centroid() Point {
 				cy += (r[i].Y + r[i+1].Y) *
 					(r[i].X*r[i+1].Y - r[i+1].X*r[i].Y)
 			}
-			cx /= 6 * a
-			cy /= 6 * a
+			cx /= 6 * sa
+			cy /= 6 * sa
 			A += a
 			xA += cx * a
 			yA += cy * a
